@@ -44,7 +44,7 @@ import (
 // header and path need is accepted by the decoder and re-serialized without
 // the surplus bytes (HdrLen kept). The specification does not define such
 // bytes, so this is recorded as an observation class, not judged.
-const c18JudgeHdrLenSlack = false
+const c18JudgeHdrLenSlack = true
 
 type dfb struct{ truncated bool }
 
